@@ -34,16 +34,16 @@ theorem realpath_clean {fs : FS} (hcwd : ∀ n ∈ fs.cwd, RealName n) {p c : By
   · simp [hne] at h
   · simp only [hne, if_false] at h
     split at h
-    · cases hw : walk fs [] Kind.dir (split p) with
+    · cases hw : walk fs (fs.fuel (split p)) maxLinks [] Kind.dir (split p) with
       | none => simp [hw] at h
       | some r =>
         simp [hw] at h
-        exact ⟨r.1, walk_real fs _ (fun s hs => mem_split_noSlash hs) [] _ (by simp) r hw, h.symm⟩
-    · cases hw : walk fs fs.cwd Kind.dir (split p) with
+        exact ⟨r.1, walk_real fs _ _ _ (fun s hs => mem_split_noSlash hs) [] _ (by simp) r hw, h.symm⟩
+    · cases hw : walk fs (fs.fuel (split p)) maxLinks fs.cwd Kind.dir (split p) with
       | none => simp [hw] at h
       | some r =>
         simp [hw] at h
-        exact ⟨r.1, walk_real fs _ (fun s hs => mem_split_noSlash hs) fs.cwd _ hcwd r hw, h.symm⟩
+        exact ⟨r.1, walk_real fs _ _ _ (fun s hs => mem_split_noSlash hs) fs.cwd _ hcwd r hw, h.symm⟩
 
 /-- no path options: a clean path without backslash, used as a key, is resolved to itself -/
 theorem resolveKey_plain_normal {cfg : Cfg} {fs : FS} (hS : cfg.sourceDir = none)
